@@ -6,6 +6,8 @@
      setud h4 <tag> | setser h4 <tag> | clrud h4
      copy h6=h3 (shallow-copy function that installs callbacks) | copyd h6=h3 (NULL)
      ptrset h3 <hexpath|-> h4 | use h4
+     padd h3 <hexpath> h4 | prepl h3 <hexpath> h4 | prem h3 <hexpath> | pcopy h3 <hexfrom> <hexpath>
+     | pmove h3 <hexfrom> <hexpath>   one-operation JSON patches applied to h3 (json_patch_apply)
    Observation per step: "<ret> <events>" with events "-" or d<id>.<tag> (delete callback at
    destruction) / u<id>.<tag> (old callback invoked by set_userdata) joined by ","; `use`
    prints "use <dump>"; after the last step "end <nodes with a callback still alive> <leaked blocks>". *)
@@ -79,6 +81,118 @@ let rec dump h depth (v : z option) =
        | KArray -> head ^ "[" ^ String.concat "," (List.map (fun (_, c) -> dump h (depth + 1) c) n.children) ^ "]"
        | KObject -> head ^ "{" ^ String.concat "," (List.map (fun (k, c) -> hex_of_bytes k ^ "=" ^ dump h (depth + 1) c) n.children) ^ "}")
 
+(* ---- json_patch operations: json_patch.c implements add/replace/copy as json_object_deep_copy
+   (default shallow copy) of the value + json_pointer_set with an insert callback, remove as
+   json_object_object_del / array_del_idx, move as json_object_get + remove + set, and puts
+   the value when the set fails.  Here they are the same compositions of
+   model steps (each component an admissible operation, so the theorems apply to the
+   composition). *)
+exception Stop of string
+
+type patch = PAdd of z * string * z option | PRepl of z * string * z option | PRem of z * string
+           | PCopy of z * string * string | PMove of z * string * string
+
+let parse_patch (s : string) : patch option =
+  match String.split_on_char ' ' s with
+  | ["padd"; r; p; v] -> Some (PAdd (hid1 r, p, hid v))
+  | ["prepl"; r; p; v] -> Some (PRepl (hid1 r, p, hid v))
+  | ["prem"; r; p] -> Some (PRem (hid1 r, p))
+  | ["pcopy"; r; f; p] -> Some (PCopy (hid1 r, f, p))
+  | ["pmove"; r; f; p] -> Some (PMove (hid1 r, f, p))
+  | _ -> None
+
+let sub st o =
+  match step !st o with
+  | ROk (s', ret, evs) -> st := s'; (ret, evs)
+  | RUB -> raise (Stop "UB")
+  | RFuel -> raise (Stop "FUEL")
+
+let arr_len st p = match hfind !st.heap_of p with Some n -> zlen n.children | None -> Z0
+
+(* json_pointer_set_with_array_cb with json_object_array_insert_idx_cb (add) / put (replace) /
+   json_object_array_move_cb (move): returns (ret, events) *)
+let patch_set st root path v ~(add : bool) =
+  match ptr_target !st.heap_of root (path_of_hex path) with
+  | PTNone -> (z_of_int (-1), [])
+  | PTRoot -> raise (Stop "PATCHROOT")
+  | PTObj (p, k) -> sub st (OObjAdd (p, k, v))
+  | PTArrAdd p -> sub st (OArrAdd (p, v))
+  | PTArrPut (p, idx) ->
+    if Z.ltb (arr_len st p) idx then (z_of_int (-1), [])
+    else if add then sub st (OArrIns (p, idx, v)) else sub st (OArrPut (p, idx, v))
+
+(* json_pointer_get_internal: (parent target, the object found) *)
+let patch_get st root path =
+  match path_of_hex path with
+  | None -> None
+  | Some [] -> raise (Stop "PATCHROOT")
+  | Some toks ->
+    (match ptr_walk !st.heap_of (Some root) toks with
+     | None -> None
+     | Some obj -> Some (ptr_target !st.heap_of root (Some toks), obj))
+
+let patch_remove st tgt =
+  match tgt with
+  | PTObj (p, k) -> sub st (OObjDel (p, k))
+  | PTArrPut (p, idx) -> sub st (OArrDel (p, idx, z_of_int 1))
+  | _ -> raise (Stop "PATCHREMOVE")
+
+let opt_step st f v = match v with Some i -> snd (sub st (f i)) | None -> []
+
+(* json_object_deep_copy(value, &copy, NULL) of a non-null value: None = the copy failed *)
+let copy_value st (v : z option) : z option option =
+  match v with
+  | None -> Some None
+  | Some i -> let (ret, _) = sub st (OCopy (i, false)) in
+    if Z.ltb ret Z0 then None else Some (Some ret)
+
+let starts_with s pre = String.length s >= String.length pre && String.sub s 0 (String.length pre) = pre
+
+let run_patch st (p : patch) : z * ev list =
+  let fail = z_of_int (-1) in
+  let place root path v =            (* store an owned value; release it when the store fails *)
+    let (ret, e1) = patch_set st root path v ~add:true in
+    let e2 = if ret <> Z0 then opt_step st (fun i -> OPut i) v else [] in
+    (ret, e1 @ e2) in
+  match p with
+  | PAdd (root, path, v) | PRepl (root, path, v) ->
+    let add = (match p with PAdd _ -> true | _ -> false) in
+    if (not add) && patch_get st root path = None then (fail, [])
+    else (match copy_value st v with
+          | None -> (fail, [])
+          | Some c ->
+            let (ret, e1) = patch_set st root path c ~add in
+            let e2 = if ret <> Z0 then opt_step st (fun i -> OPut i) c else [] in
+            (ret, e1 @ e2))
+  | PRem (root, path) ->
+    (match patch_get st root path with
+     | None -> (fail, [])
+     | Some (tgt, _) -> patch_remove st tgt)
+  | PCopy (root, from, path) ->
+    (match patch_get st root from with
+     | None -> (fail, [])
+     | Some (_, obj) ->
+       (match copy_value st obj with
+        | None -> (fail, [])
+        | Some c -> place root path c))
+  | PMove (root, from, path) ->
+    let fs = string_of_bytes (bytes_of_hex from) and ps = string_of_bytes (bytes_of_hex path) in
+    let same = (fs = ps) in
+    if starts_with ps fs && (not same) && (ps.[String.length fs] = '/' || fs = "") then (fail, [])
+    else
+    (match patch_get st root from with
+     | None -> (fail, [])
+     | Some (tgt, obj) ->
+       if same then (Z0, []) else begin
+         let e0 = opt_step st (fun i -> OGet i) obj in
+         let (r1, e1) = patch_remove st tgt in
+         if r1 <> Z0 then (r1, e0 @ e1 @ opt_step st (fun i -> OPut i) obj)
+         else begin
+           let (ret, e2) = place root path obj in
+           (ret, e0 @ e1 @ e2)
+         end
+       end)
+
 let run line =
   let ops = List.filter (fun x -> x <> "") (String.split_on_char ';' line) in
   let st = ref init_state in
@@ -86,6 +200,13 @@ let run line =
   let stopped = ref false in
   (try
     List.iter (fun s ->
+      match parse_patch s with
+      | Some p ->
+        (try
+          let (ret, evs) = run_patch st p in
+          out := Printf.sprintf "%s %s" (string_of_z ret) (evs_str evs) :: !out
+        with Stop m -> out := m :: !out; stopped := true; raise Exit)
+      | None ->
       let (o, want) = parse_op s in
       (* the script assigns ids; the model allocates them: keep the two in step *)
       (match want with
